@@ -233,12 +233,15 @@ type Case struct {
 	Formula  string             `json:"formula"`
 	Deco     string             `json:"deco,omitempty"`
 	Root     string             `json:"root,omitempty"`
-	Other    string             `json:"other,omitempty"`    // subst: the substituted formula
-	Extra    map[string]float64 `json:"extra,omitempty"`    // subst: bindings of the introduced variables
-	Bind     int                `json:"bind"`               // binding vector (-1: all)
-	Optimize bool               `json:"optimize,omitempty"` // template: key builder optimisation
-	Quoted   bool               `json:"quoted,omitempty"`   // template: formula given as one quoted argument
-	Texts    []string           `json:"texts,omitempty"`    // bind: the texts [0] and x are bound to (Formula is a format with %[1]s, %[2]s)
+	Other    string             `json:"other,omitempty"`      // subst: the substituted formula
+	Extra    map[string]float64 `json:"extra,omitempty"`      // subst: bindings of the introduced variables
+	Bind     int                `json:"bind"`                 // binding vector (-1: all)
+	Optimize bool               `json:"optimize,omitempty"`   // template: key builder optimisation
+	Quoted   bool               `json:"quoted,omitempty"`     // template: formula given as one quoted argument
+	Texts    []string           `json:"texts,omitempty"`      // bind: the texts [0] and x are bound to (Formula is a format with %[1]s, %[2]s)
+	ExtraQ   map[string]string  `json:"extra_text,omitempty"` // instead of extra when a value is an infinity or NaN (not representable in JSON)
+	Dir      string             `json:"dir,omitempty"`        // subst: direction / family when not derivable from Extra
+	Lenient  bool               `json:"lenient,omitempty"`    // subst: a name the harness did not bind may be looked up (spellings of unsettled reading)
 }
 
 type checker struct {
@@ -423,7 +426,32 @@ func showNode(n *node) string {
 // checkSubst: "Replacing any numeric constant by a variable bound to the same
 // value (or the reverse) never changes the result".
 func (c *checker) checkSubst(orig string, base *formulaResult, other string, extra map[string]float64, bind int, dir string) {
+	c.checkSubstEx(orig, base, other, extra, bind, dir, true)
+}
+
+// substCase: the replayable form of a substitution case (infinities and NaN
+// among the bindings are stored as text).
+func substCase(orig, other string, extra map[string]float64, bind int) Case {
 	cs := Case{Kind: "subst", Formula: orig, Other: other, Extra: extra, Bind: bind}
+	for _, v := range extra {
+		if math.IsInf(v, 0) || math.IsNaN(v) {
+			cs.Extra, cs.ExtraQ = nil, map[string]string{}
+			for k, v := range extra {
+				cs.ExtraQ[k] = strconv.FormatFloat(v, 'g', -1, 64)
+			}
+			break
+		}
+	}
+	return cs
+}
+
+// strictVars=false: the substituted formula may look up a name the harness did
+// not bind (it evaluates to 0 there); used for tokens of unsettled reading.
+func (c *checker) checkSubstEx(orig string, base *formulaResult, other string, extra map[string]float64, bind int, dir string, strictVars bool) {
+	cs := substCase(orig, other, extra, bind)
+	if !strictVars {
+		cs.Dir, cs.Lenient = dir, true
+	}
 	cp := compileDirect(other)
 	if cp.panicked != "" {
 		c.violation(panicSig("compile", other, cp.panicked), fmt.Sprintf("stdmath.Compile(%q) panicked: %s", other, cp.panicked), Case{Kind: "formula", Formula: other, Bind: -1})
@@ -442,7 +470,7 @@ func (c *checker) checkSubst(orig string, base *formulaResult, other string, ext
 		}
 		en := bindingVector(b)
 		en.extra = extra
-		v, pk := evalDirect(cp.expr, en, true)
+		v, pk := evalDirect(cp.expr, en, strictVars)
 		if pk != "" {
 			cs.Bind = b
 			c.violation(panicSig("eval", other, pk), fmt.Sprintf("Eval of %q with %s panicked: %s", other, en, pk), Case{Kind: "formula", Formula: other, Bind: b})
@@ -871,11 +899,24 @@ func replay(w *runner.W, raw json.RawMessage) {
 	case "subst":
 		res := c.checkFormula(cs.Formula, "binary-tree", "replay", cs.Bind)
 		dir := "constant-to-variable"
+		if cs.ExtraQ != nil {
+			cs.Extra = map[string]float64{}
+			for k, t := range cs.ExtraQ {
+				v, err := strconv.ParseFloat(t, 64)
+				if err != nil {
+					panic(err)
+				}
+				cs.Extra[k] = v
+			}
+		}
 		if len(cs.Extra) == 0 {
 			dir = "variable-to-constant"
 		}
+		if cs.Dir != "" {
+			dir = cs.Dir
+		}
 		if res.expr != nil {
-			c.checkSubst(cs.Formula, &res, cs.Other, cs.Extra, cs.Bind, dir)
+			c.checkSubstEx(cs.Formula, &res, cs.Other, cs.Extra, cs.Bind, dir, !cs.Lenient)
 		}
 	case "template":
 		res := c.checkFormula(cs.Formula, "binary-tree", "replay", -1)
@@ -910,7 +951,8 @@ func main() {
 				"stacked prefix operators, unary plus, adjacent operands without operator, a function name without a group are neither demanded to compile nor to be rejected",
 				"numeric comparison is NaN-aware (NaN equals NaN) and treats -0 and 0 as equal",
 				"literal spellings that neither the statement nor docs/usage/math.md give (upper-case 0X/0B prefix, leading or trailing dot, unsigned exponent 1e3) may be rejected; when accepted they must have their usual value. A signed exponent (1e-3) is not a literal: unspecified",
-				"binding texts: a plain decimal text (-?digits[.digits], no redundant leading zero) must be read as the float64 nearest to its decimal value (1 ulp tolerated; reference computed with math/big) and must equal the same text written as a constant; for a leading +, redundant leading zeros, leading/trailing dot, exponent, surrounding blanks, 0x/0b/0o prefix, digit separators, inf/nan and values beyond float64 both the documented error marker <BAD-TYPE> and the natural value are accepted; any other text must give the error marker (anchor: binding 'with error counting'), never a number",
+				"spellings of unsettled reading as formula tokens (inf/infinity/nan in any letter case, hexadecimal floats, digit separators, exponents, values beyond float64 ...): a compile error, the IEEE constant and a look-up of a variable of that name are each allowed as such; what is demanded is only the constant-vs-variable sentence: when the tree reads the text as a number when a variable is bound to it (so the text is a 'numeric value' by the tree's own account, and docs/usage/math.md makes only non-numeric values variables) AND compiles the formula with the text as a token, both formulas give the same number; no variable of that name is bound. Integers with a redundant leading zero (017: decimal 17 or octal 15) are exempt",
+				"binding texts: a plain decimal text (-?digits[.digits], no redundant leading zero) must be read as the float64 nearest to its decimal value (1 ulp tolerated; reference computed with math/big) and must equal the same text written as a constant; for a leading +, redundant leading zeros, leading/trailing dot, exponent, surrounding blanks, 0x/0b/0o prefix, hexadecimal floats (0x1p4), digit separators, inf/infinity/nan and values beyond float64 both the documented error marker <BAD-TYPE> and the natural value are accepted; any other text must give the error marker (anchor: binding 'with error counting'), never a number",
 			}
 		},
 		Worker:         worker,
